@@ -47,6 +47,7 @@ def check(ctx):
         r11_2(ctx, m, L)
         r11_5_group(ctx, m, L)
     r11_3(ctx, m)
+    r11_6(ctx, m)
     r11_4_worker(ctx, m)
     r11_5_batches(ctx, m)
     ctx.not_decided += [
@@ -444,3 +445,32 @@ def r11_5_batches(ctx, m):
         reset = [st for st in blk[i + 1 :] if isinstance(st, ast.Assign) and norm(st.targets[0]) in m.proc_lists and norm(st.value) in ("[]", "list()")]
         ctx.check(bool(reset), "R11.5", L.where(), "the process list is reset after a group has been collected and written", key_of(pf, "process-list-reset"))
         # a fresh channel or the same one: both fine as long as the new processes get the current one (checked above)
+
+
+def r11_6(ctx, m):
+    """A timeout while some worker is still running must lead back to the read: the parent may give up (exit) only on
+    a path that established that *no* worker is alive; the process predicates are classified as in C13."""
+    from . import c13
+
+    c13.check_helpers(ctx, m)
+    pf = m.parent
+    repo = ctx.repo
+    for L in m.loops:
+        bad = None
+        n = 0
+        for p in L.paths:
+            if not any(e.kind == "exc" and e.node is L.get_stmt for e in p.events):
+                continue
+            n += 1
+            facts = {}
+            seen = False
+            for e in p.events:
+                if e.kind == "exc":
+                    seen = True
+                elif e.kind == "test" and seen:
+                    facts.update(rc.test_facts(repo, pf, e.node, e.pol))
+            if p.term in ("exit", "raise", "break", "return") and facts.get("alive_any") is not False:
+                bad = (p, f"the parent gives up ({p.term}) after a timeout without having established that no worker is alive (a slow worker, or one that already finished cleanly next to a running one, makes the run fail)")
+            if facts.get("alive_any") is True and p.term != "continue":
+                bad = (p, f"a worker is still alive but the path ends in '{p.term}' instead of going back to the read")
+        ctx.check(bad is None, "R11.6", L.where(), "after a timed-out read the parent keeps waiting while any worker is alive and gives up only when none is", key_of(pf, f"wait-while-alive:{norm(L.node.test)}:{bad[1][:40] if bad else ''}"), handler_paths=n, **({"path": bad[0].show(), "why": bad[1]} if bad else {}))
